@@ -5,7 +5,7 @@ import itertools
 import collections
 from .. import model, codecs, cli, lcfrs
 from ..runner import Result, scratch
-from ..bridge import build, quiet
+from ..bridge import build, quiet, cli_options
 from .c07 import run_binarize
 from .c08 import labelings
 
@@ -15,7 +15,7 @@ ID = 'C09'
 LEVEL = 'exploration'
 TECHNIQUE = 'bounded exhaustive enumeration of small grammars x modes x formats x options, independent decoders of PMCFG/RCG/LoPar files, CLI executed in-process'
 
-WORDS = ['w', 'Haus', 'ärger', 'w', 'Über', 'USA', '3D', 'eMail', '#1', '#']
+WORDS = ['w', 'Haus', 'ärger', 'w', 'Über', 'USA', '3D', 'eMail', '#1', '#', 'caf\u00e9', 'cafe\u0301']
 MODES = [None,
          {'reordering': 'none', 'markov': None},
          {'reordering': 'optimal', 'markov': None},
@@ -267,6 +267,10 @@ def check_write(mtjs, mode_i, fmt, lig, enc):
                               % (detail, [model.mt_str(m.root, m.toks) for m in mts], mode, lig, enc),
                     'what': '%s: %s' % (fmt, kind)})
     try:
+        ''.join(tk['word'] for m in mts for tk in m.toks).encode(enc)
+    except UnicodeEncodeError:
+        return out, False           # the encoding cannot carry these words: not a case
+    try:
         G, lex = build_grammar(mts, mode)
     except Exception as e:
         bad('exception', 'extract/binarize: %s: %s' % (type(e).__name__, e))
@@ -279,7 +283,8 @@ def check_write(mtjs, mode_i, fmt, lig, enc):
     for ext in ('pmcfg', 'rcg', 'lex', 'gram', 'start', 'oc', 'OC'):
         if os.path.exists(dest + '.' + ext):
             os.unlink(dest + '.' + ext)
-    opts = {'lex_in_grammar': True} if lig else {}
+    # lig == 2: the option given with a value, `--dest-opts lex_in_grammar:0` (the option is a switch: present = on)
+    opts = (cli_options({'lex_in_grammar': 0}) if lig == 2 else {'lex_in_grammar': True}) if lig else {}
     try:
         getattr(grammaroutput, fmt)(G, lex, dest, enc, **opts)
         err = None
@@ -398,6 +403,10 @@ def check_cli(mtjs, gramtype, markov, fmt, lig):
         if fmt == 'rcg' and not lig:
             dest2 = os.path.join(scratch(), 'c09again')
             for denc in ('utf-8', 'latin-1'):
+                try:
+                    ''.join(tk['word'] for m in mts for tk in m.toks).encode(denc)
+                except UnicodeEncodeError:
+                    continue
                 st, so, se, exc = cli.run(['grammar', dest, dest2, 'treebank', '--src-format', 'rcg', '--dest-format', 'pmcfg',
                                            '--dest-enc', denc])
                 if st != 0:
@@ -469,6 +478,11 @@ def extra_banks():
     yield [a, b, c]
     yield [b, d]
     yield [a, c, a]
+    # size probes: rules with twelve and thirteen variables (two-digit variable numbers in the grammar files)
+    for sh in (tuple(range(1, 13)), ((1, 3, 5, 7, 9, 11, 13), 2, 4, 6, 8, 10, 12)):
+        n = len(model.leaves(sh))
+        yield [model.MT(1, T(n, words=[WORDS[i % 8] for i in range(n)], pos=['x' if i % 2 else 'y' for i in range(n)]),
+                        model.decorate(sh, lambda p, s: 'A'))]
 
 
 def run_chunk(chunk):
@@ -488,7 +502,9 @@ def run_chunk(chunk):
                 js = [m.to_json() for m in bank]
                 for mode_i in range(len(MODES)):
                     for fmt in ('pmcfg', 'rcg', 'lopar'):
-                        for lig in (False, True):
+                        for lig in (False, True, 2):
+                            if lig == 2 and (mode_i not in (0, 2) or fmt == 'lopar'):
+                                continue
                             for enc in ('utf-8', 'latin-1'):
                                 if enc == 'latin-1' and (mode_i not in (0, 1) or lig):
                                     continue
